@@ -6,6 +6,11 @@ C05 — Finalized output is a well-formed, self-describing CAR that matches what
 namespace Car.C05
 open Car
 
+/-- Guard fact, regenerated from the source: `InsertionIndex.Flatten` hands ALL records to the target
+    index in one `Load`, outside any loop (`Load` replaces a bucket, it does not merge: the model's
+    `finalizeEvs` loads the whole record list at once). -/
+theorem flatten_shape : Facts.flattenShape = ["New", "AscendGreaterOrEqual", "Load"] := by decide
+
 /-- Header arithmetic with the specification's literal numbers: data offset = 51 + data padding,
     data size = exact payload length, index offset = end of payload + index padding,
     fully-indexed bit (bit 7 of the first characteristics byte) iff identity CIDs are stored. -/
